@@ -80,3 +80,35 @@ Qed.
 
 Lemma buddy_neq p k : p mod 2 ^ k = 0 -> N.lxor (2 ^ k) p <> p.
 Proof. intros H. pose proof (pow2_pos k). destruct (buddy_spec p k H) as [[E _]|[E _]]; lia. Qed.
+
+(* two distinct multiples of 2^k are at least 2^k apart *)
+Lemma aligned_gap a b k : a mod 2 ^ k = 0 -> b mod 2 ^ k = 0 -> a < b -> a + 2 ^ k <= b.
+Proof.
+  intros Ha Hb Hlt. apply aligned_mult in Ha, Hb. destruct Ha as [q1 ->]. destruct Hb as [q2 ->].
+  pose proof (pow2_pos k) as Hp. assert (q1 < q2) by (apply (N.mul_lt_mono_pos_r (2 ^ k)); assumption).
+  replace (q1 * 2 ^ k + 2 ^ k) with ((q1 + 1) * 2 ^ k) by lia. apply N.mul_le_mono_r. lia.
+Qed.
+Lemma aligned_add a b k : a mod 2 ^ k = 0 -> b mod 2 ^ k = 0 -> (a + b) mod 2 ^ k = 0.
+Proof.
+  intros Ha Hb. apply aligned_mult in Ha, Hb. destruct Ha as [q1 ->]. destruct Hb as [q2 ->].
+  apply aligned_mult. exists (q1 + q2). lia.
+Qed.
+Lemma pow2_aligned k b : k <= b -> 2 ^ b mod 2 ^ k = 0.
+Proof. intros H. apply aligned_mult. exists (2 ^ (b - k)). apply pow2_split. exact H. Qed.
+
+(* top-level pages: aligned to twice their size and the memory ends before their would-be buddy does *)
+Lemma top_disjoint M o1 b1 o2 b2 :
+  o1 mod 2 ^ (b1 + 1) = 0 -> o1 + 2 ^ b1 <= M -> M < o1 + 2 ^ (b1 + 1) ->
+  o2 mod 2 ^ (b2 + 1) = 0 -> o2 + 2 ^ b2 <= M -> M < o2 + 2 ^ (b2 + 1) ->
+  o1 < o2 -> o1 + 2 ^ b1 <= o2.
+Proof.
+  intros A1 B1 C1 A2 B2 C2 Hlt.
+  pose proof (pow2_succ b1) as Hs1. pose proof (pow2_succ b2) as Hs2. pose proof (pow2_pos b1) as Hp1. pose proof (pow2_pos b2) as Hp2.
+  destruct (N.le_gt_cases (o1 + 2 ^ b1) o2) as [H|Hov]; [exact H|exfalso].
+  destruct (N.le_gt_cases b1 b2) as [Hb|Hb].
+  - apply (aligned_weaken o2 (b1 + 1) (b2 + 1)) in A2; [|lia].
+    pose proof (aligned_gap o1 o2 (b1 + 1) A1 A2 Hlt). clear A1 A2. lia.
+  - assert (Hm : (o1 + 2 ^ b1) mod 2 ^ (b2 + 1) = 0).
+    { apply aligned_add; [apply (aligned_weaken o1 (b2 + 1) (b1 + 1)); [lia|exact A1]|apply pow2_aligned; lia]. }
+    pose proof (aligned_gap o2 (o1 + 2 ^ b1) (b2 + 1) A2 Hm Hov). clear A1 A2 Hm. lia.
+Qed.
